@@ -49,8 +49,7 @@ pub open spec fn module_of(s: &crate::semantic::SemanticState, p: ItemPath) -> O
     }
 }
 
-// ---------- name resolution (C11), uninterpreted until resolve_string is under contract ----------
-pub uninterp spec fn spec_resolve_string(reg: &TypeRegistry, scope: Seq<ItemPath>, name: Seq<char>) -> Option<Type>;
+// ---------- name resolution (C11): spec_resolve_string is defined in resolve.rs ----------
 /// mirror of `TypeRegistry::resolve_grammar_type`
 pub open spec fn spec_resolve_type(reg: &TypeRegistry, scope: Seq<ItemPath>, t: grammar::Type) -> Option<Type>
     decreases t
